@@ -8,7 +8,9 @@ import (
 	"flag"
 	"fmt"
 	"io"
+	"os"
 	"reflect"
+	"runtime"
 	"strings"
 	"testing"
 
@@ -135,6 +137,10 @@ func TestVerifC17Agree(t *testing.T) {
 	rapid.Check(t, func(t *rapid.T) {
 		tp, excl := verifc17.GenStruct(t, c17Cfg(verifc17.Cfg{MaxDepth: 3}))
 		for k, n := range excl {
+			if strings.HasPrefix(k, "generated:") {
+				st.ClassN("shape:"+strings.TrimPrefix(k, "generated:"), n)
+				continue
+			}
 			st.ClassN("excluded-shape:"+k, n)
 			for i := 0; i < n; i++ {
 				st.Excluded()
@@ -541,4 +547,69 @@ func c17Cfg(cfg verifc17.Cfg) verifc17.Cfg {
 	cfg.ExcludePtrToContainer = kf["D9a"] || kf["D9c"] || kf["D9"]
 	cfg.ExcludeMapOfPtrToPrim = kf["D9b"] || kf["D9"]
 	return cfg
+}
+
+// TestVerifC17Concurrent: the mapping-level entry points yield, for every load, the
+// result of the sequential load of the same document, whatever else the process is
+// decoding (see the conf unit of the same name).
+func TestVerifC17Concurrent(t *testing.T) {
+	logx.Disable()
+	st := verifkit.New(c17Unit("mconcurrent"))
+	defer st.Flush()
+	rounds := verifkit.EnvInt("rounds", 12)
+	mk := func(name string, fb func([]byte, any, ...mapping.UnmarshalOption) error,
+		fr func(io.Reader, any, ...mapping.UnmarshalOption) error, pick func(p *verifc17.Pair) []byte) []verifc17.ConcLoader {
+		return []verifc17.ConcLoader{
+			{Name: "Unmarshal" + name + "Bytes", Load: func(p *verifc17.Pair, k int) (reflect.Value, error) {
+				d := c17Decode(p.T.RT(), func(b []byte, v any) error { return fb(b, v) }, pick(p))
+				return d.val, d.err
+			}},
+			{Name: "Unmarshal" + name + "Reader", Load: func(p *verifc17.Pair, k int) (reflect.Value, error) {
+				d := c17Decode(p.T.RT(), func(b []byte, v any) error { return fr(bytes.NewReader(b), v) }, pick(p))
+				return d.val, d.err
+			}},
+		}
+	}
+	var loaders []verifc17.ConcLoader
+	loaders = append(loaders, mk("Json", mapping.UnmarshalJsonBytes, mapping.UnmarshalJsonReader, func(p *verifc17.Pair) []byte { return p.J })...)
+	loaders = append(loaders, mk("Yaml", mapping.UnmarshalYamlBytes, mapping.UnmarshalYamlReader, func(p *verifc17.Pair) []byte { return p.Y })...)
+	loaders = append(loaders, mk("Toml", mapping.UnmarshalTomlBytes, mapping.UnmarshalTomlReader, func(p *verifc17.Pair) []byte { return p.M })...)
+	rapid.Check(t, func(t *rapid.T) {
+		n := rapid.IntRange(8, 32).Draw(t, "pairs")
+		procs := rapid.SampledFrom([]int{0, 1, 2, 4}).Draw(t, "gomaxprocs") // 0: as the process was started
+		gc := rapid.Bool().Draw(t, "gc")
+		var pairs []*verifc17.Pair
+		for tries := 0; len(pairs) < n && tries < 4*n; tries++ {
+			pad := rapid.SampledFrom([]int{0, 3, 40, 200, 600, 1500}).Draw(t, "pad")
+			p, ok := verifc17.GenPair(t, c17Cfg(verifc17.Cfg{Options: true, MaxDepth: 3}), len(pairs), pad)
+			if !ok {
+				st.Class("unrepresentable")
+				continue
+			}
+			pairs = append(pairs, p)
+		}
+		if procs > 0 {
+			defer runtime.GOMAXPROCS(runtime.GOMAXPROCS(procs))
+		}
+		loads, failures := verifc17.RunConcurrent(pairs, loaders, rounds, gc)
+		st.EvalN(int(loads))
+		st.Class(fmt.Sprintf("gomaxprocs=%d", runtime.GOMAXPROCS(0)))
+		if len(failures) > 0 {
+			t.Fatalf("%d goroutines, GOMAXPROCS=%d, gc=%v:\n%s", len(pairs), runtime.GOMAXPROCS(0), gc, strings.Join(failures, "\n"))
+		}
+		var fp strings.Builder
+		for _, p := range pairs {
+			fp.Write(p.J)
+		}
+		st.NonTrivial(fmt.Sprintf("concurrent %d pairs x %d rounds x %d loaders: %s", len(pairs), rounds, len(loaders), fp.String()))
+	})
+}
+
+// c17Unit: the evidence unit name (a unit of check.json that reuses a test under another
+// configuration, e.g. -race, sets VERIF_UNIT).
+func c17Unit(def string) string {
+	if v := os.Getenv("VERIF_UNIT"); v != "" {
+		return v
+	}
+	return def
 }
